@@ -401,10 +401,10 @@ theorem C17_handoff_queue_lossless (ops : List QOp) :
   rw [he, List.append_nil] at h
   exact h
 
-/-- 250 connections pending, then taken one per round: all 250, in order -/
+/-- 40 connections pending, then taken one per round: all 40, in order, then `Empty` -/
 example :
-    let ops := (List.range 250).map QOp.put ++ List.replicate 251 QOp.get
-    (qrun ops).got.filterMap id = List.range 250 ∧ (qrun ops).got.getLast? = some none := by
+    let ops := (List.range 40).map QOp.put ++ List.replicate 41 QOp.get
+    (qrun ops).got.filterMap id = List.range 40 ∧ (qrun ops).got.getLast? = some none := by
   decide
 
 /-- **a bounded queue is not equivalent.**  With `deque(maxlen=cap)` semantics the
